@@ -1,7 +1,7 @@
 (* Correspondence checkers for C05 (request side): each takes one case (input paired
    with what the implementation did) and says whether Model/Request.v and
    Lib/Urlparse.v agree.  Driven by harness/k05.py. *)
-From PG Require Import Lib.Str Lib.Bytes Lib.Utf8 Lib.PercentStr Lib.Urlparse Model.ProtoId Model.Request.
+From PG Require Import Lib.Str Lib.Bytes Lib.Utf8 Lib.PercentStr Lib.Urlparse Model.ProtoId Model.Detect Model.Request.
 Local Open Scope N_scope.
 
 Definition routed_eqb (m i : routed) : bool :=
@@ -25,17 +25,27 @@ Definition unchecked_input (p : proto) (input : list N) : bool :=
   | _ => false
   end.
 
+(* Spartan's third field goes through Python's int(); the model reads a run of ASCII digits,
+   which is what it is whenever canhandlerequest accepted the line (only direct calls of
+   handle() on other lines fall outside) *)
+Definition in_scope (p : proto) (input : list N) : bool :=
+  match p with
+  | PSpartan => spartan_shape (decode_se (fst (readline input)))
+  | _ => true
+  end.
+
 (* ((protocol, waptop, input bytes), what the real handle() did) *)
 Definition chk_route (c : (proto * str * list N) * routed) : bool :=
   let '((p, waptop, input), impl) := c in
   let m := route_input p waptop input in
-  routed_eqb m impl ||
+  negb (in_scope p input) || routed_eqb m impl ||
   (unchecked_input p input && match impl with GeminiBad => true | _ => false end).
 
 (* branch tag of a case, for the coverage report: 0 handler without search, 1 handler with
-   search, 2 icon, 3 gemini bad, 4 input, 5 redirect, 6 too large, 7 crash *)
+   search, 2 icon, 3 gemini bad, 4 input, 5 redirect, 6 too large, 7 crash, 8 out of scope *)
 Definition tag_route (c : (proto * str * list N) * routed) : N :=
   let '((p, waptop, input), _) := c in
+  if negb (in_scope p input) then 8 else
   match route_input p waptop input with
   | ToHandler _ None => 0 | ToHandler _ (Some _) => 1 | Icon _ => 2 | GeminiBad => 3
   | GeminiInput => 4 | GeminiRedirect _ => 5 | SpartanTooLarge => 6 | Crash => 7
